@@ -25,6 +25,10 @@ import sys
 import time
 import traceback
 
+# every sub-check's quick example count is multiplied by this (the per-module counts were tuned on a loaded machine;
+# on 16 idle cores the quick tier of a property still finishes in well under a minute)
+QUICK_SCALE = float(os.environ.get("VERIF_QUICK_SCALE", "3"))
+
 VERIF_DIR = os.path.dirname(os.path.dirname(os.path.abspath(__file__)))
 REPO_DIR = os.environ.get("VERIF_REPO", "/repo")
 
@@ -67,7 +71,7 @@ def check(cond, clause, msg=""):
 class SubCheck:
     def __init__(self, name, strategy, oracle, quick=100, thorough=2000,
                  discard_exc=(), max_discard=0.5, budget_quick=60.0,
-                 budget_thorough=600.0, case_timeout=60, shards_thorough=4):
+                 budget_thorough=600.0, case_timeout=60, shards_thorough=4, shards_quick=2):
         self.name = name
         self.strategy = strategy
         self.oracle = oracle
@@ -79,6 +83,7 @@ class SubCheck:
         self.budget_thorough = budget_thorough
         self.case_timeout = case_timeout
         self.shards_thorough = shards_thorough
+        self.shards_quick = shards_quick if quick >= 20 else 1
 
 
 # --------------------------------------------------------------------------
@@ -190,6 +195,12 @@ def _job(mod_name, sub_name, tier, seed, shard, known_open, conn):
         sub = subs[sub_name]
         known_classes = getattr(mod, "KNOWN_CLASSES", {})
         n = sub.quick if tier == "quick" else sub.thorough
+        if tier == "quick" and sub.quick >= 20:
+            n = int(n * QUICK_SCALE)
+        if tier == "quick" and sub.shards_quick > 1:
+            # Hypothesis' draws within one run are correlated (it mutates earlier examples), so a small option space
+            # can be covered very unevenly by a single run: split the quick budget over independently seeded runs
+            n = max(1, -(-n // sub.shards_quick))
         budget = sub.budget_quick if tier == "quick" else sub.budget_thorough
         hseed = derive_seed(seed, sub_name, shard)
 
@@ -449,7 +460,7 @@ def run_property(mod_name, tier, seed, only=None, nproc=None):
     # ---- generated search --------------------------------------------------
     jobs = []
     for s in subs:
-        shards = 1 if tier == "quick" else s.shards_thorough
+        shards = s.shards_quick if tier == "quick" else s.shards_thorough
         for sh in range(shards):
             jobs.append((mod_name, s.name, tier, seed, sh, known_open))
     budgets = {s.name: (s.budget_quick if tier == "quick" else s.budget_thorough) for s in subs}
